@@ -293,7 +293,10 @@ func addLineText(p *lineParser) {
 		// Paragraph continuation text: leading spaces or tabs are skipped.
 		p.ConsumeIndent(p.Indent())
 	case blockRules[k].acceptsLines:
-		if p.i < len(p.line) && p.line[p.i] == '\t' && p.tabRemaining > 0 && p.tabRemaining < tabStopSize {
+		if p.i < len(p.line) && p.line[p.i] == '\t' && p.tabRemaining > 0 && p.col > columnWidth(0, p.line[:p.i]) {
+			// The tab has been consumed in part (the cursor is past the column it starts at):
+			// what is left of it is indentation, not a tab character.
+			// A tab that merely starts off a tab stop is text like any other.
 			p.container.inlineChildren = append(p.container.inlineChildren, &Inline{
 				kind:   IndentKind,
 				indent: int(p.tabRemaining),
